@@ -5,6 +5,7 @@ import (
 	"errors"
 	"fmt"
 	"io"
+	"math"
 	"net"
 	"strconv"
 	"strings"
@@ -233,7 +234,11 @@ func (s *redisServer) execute(w *bufio.Writer, args [][]byte) error {
 		if err != nil {
 			return s.respondError(w, errNotIntegerMsg)
 		}
-		return s.execIncrBy(w, args[1], -delta)
+		neg, ok := negateDelta(delta)
+		if !ok {
+			return s.respondError(w, errOverflowMsg)
+		}
+		return s.execIncrBy(w, args[1], neg)
 	case "EXISTS":
 		if len(args) < 2 {
 			return s.respondError(w, "wrong number of arguments for 'EXISTS'")
@@ -400,6 +405,15 @@ var (
 	errNotIntegerMsg = "ERR value is not an integer or out of range"
 	errOverflowMsg   = "ERR increment or decrement would overflow"
 )
+
+// negateDelta returns -delta; math.MinInt64 has no int64 negation (DECRBY by it
+// would silently become an increment by MinInt64), which is reported as !ok.
+func negateDelta(delta int64) (int64, bool) {
+	if delta == math.MinInt64 {
+		return 0, false
+	}
+	return -delta, true
+}
 
 func (s *redisServer) execIncrBy(w *bufio.Writer, key []byte, delta int64) error {
 	result, err := s.backend.IncrBy(key, delta)
